@@ -170,6 +170,3 @@ pub fn viewres(world: &mut Wd, variant: usize, v: u32) -> Value {
     json!({"res": {"views": out}})
 }
 
-pub fn run_query(world: &mut Wd, q: usize, v: u32) -> Value {
-    crate::qfamily::run(world, q, v)
-}
